@@ -37,7 +37,7 @@ def variants():
 
 
 def budget(tier):
-    return 1000 if tier == "quick" else 10000
+    return 2000 if tier == "quick" else 10000
 
 
 def decode_case(raw):
